@@ -67,6 +67,10 @@ def main(argv):
                 shutil.rmtree(d, ignore_errors=True)
             meta["suite_here"] = tail
             props = concerned(os.path.join(dst, "patch.diff"))
+            if len(argv) > 4:
+                # intake under time pressure: only the named checks (recorded in meta.json as "checks_run_subset")
+                props = argv[4].split(",")
+                meta["checks_run_subset"] = props
             res, alarms, broken = run(dst, props)
             meta["checks"] = {p: {"exit": res[p]["rc"], "output": res[p]["lines"][:3], "wall_s": res[p]["wall_s"]} for p in res}
             meta["alarms"] = alarms
